@@ -239,8 +239,22 @@ func runC18(cfg config) {
 		return nil
 	}
 
+	type forcedOp struct {
+		kind, expr, field string
+		value             proto.Message
+	}
+	var prepared proto.Message
+	var forced []forcedOp
 	doResource := func(name string, depth int, nOps int) {
-		res := g.resource(name, depth)
+		res := prepared
+		if res == nil {
+			res = g.resource(name, depth)
+			if r.intn(3) == 0 {
+				lengthenLists(r, res.ProtoReflect(), 0)
+			}
+		}
+		script := forced
+		prepared, forced = nil, nil
 		var lastAdded string    // expression of an element just added (to delete it again)
 		var lastReplaced string // expression of an element just replaced ...
 		var lastOld proto.Message
@@ -308,7 +322,24 @@ func runC18(cfg config) {
 			c := call{camel: true, fieldValid: true}
 			suffixes := []string{"", "", "", ".first()", ".last()", ".where(true)", ".where(true).first()", ".first().last()"}
 			choose := r.intn(10)
-			if lastAdded != "" && r.intn(2) == 0 {
+			var fo *forcedOp
+			if opi < len(script) {
+				fo = &script[opi]
+				choose = map[string]int{"delete": 0, "replace": 3, "add": 6}[fo.kind]
+			}
+			findElem := func(expr string) *physNode {
+				for _, n := range append(elems, pt.nodes[0]) {
+					if n.expr == expr {
+						return n
+					}
+				}
+				return nil
+			}
+			if fo != nil && findElem(fo.expr) == nil {
+				continue
+			}
+			if fo != nil {
+			} else if lastAdded != "" && r.intn(2) == 0 {
 				choose = 100
 			} else if lastReplaced != "" && r.intn(2) == 0 {
 				choose = 101
@@ -361,15 +392,18 @@ func runC18(cfg config) {
 			case choose <= 2: // delete
 				n := pick(r, elems)
 				suf := pick(r, suffixes)
+				if fo != nil {
+					n, suf = findElem(fo.expr), ""
+				}
 				c.kind = "delete"
 				c.src = n.expr + suf
-				if r.intn(6) == 0 { // an un-indexed path: possibly several elements
+				if fo == nil && r.intn(6) == 0 { // an un-indexed path: possibly several elements
 					c.src = stripIndexes(n.expr)
 				}
-				if r.intn(12) == 0 {
+				if fo == nil && r.intn(12) == 0 {
 					c.src = n.expr + ".nonexistent"
 				}
-				if r.intn(8) == 0 && res.ProtoReflect().Descriptor().Fields().ByName("contained") != nil {
+				if fo == nil && r.intn(8) == 0 && res.ProtoReflect().Descriptor().Fields().ByName("contained") != nil {
 					c.src = name + ".contained[0].id"
 					suf = ""
 				}
@@ -378,15 +412,26 @@ func runC18(cfg config) {
 			case choose <= 5: // replace
 				n := pick(r, elems)
 				suf := pick(r, suffixes)
+				if fo != nil {
+					n, suf = findElem(fo.expr), ""
+					if n == pt.nodes[0] {
+						continue
+					}
+				}
 				c.kind = "replace"
 				c.src = n.expr + suf
-				if r.intn(8) == 0 {
+				if fo == nil && r.intn(8) == 0 {
 					c.src = stripIndexes(n.expr)
 				}
 				targetFor(c.src, stepsAfterField(c.src) >= 2)
 				h := holder(n)
 				d := elemDescriptor(h.fd)
-				switch r.intn(8) {
+				sel := r.intn(8)
+				if fo != nil {
+					sel, c.value = 100, fo.value
+				}
+				switch sel {
+				case 100:
 				case 0:
 					c.nilValue = true
 				case 1, 2:
@@ -408,9 +453,12 @@ func runC18(cfg config) {
 				c.run = func() error { return verifhook.PatchReplace(res, c.src, c.value) }
 			case choose <= 7: // add
 				n := pick(r, append(elems, pt.nodes[0]))
+				if fo != nil {
+					n = findElem(fo.expr)
+				}
 				c.kind = "add"
 				c.src = n.expr
-				if r.intn(10) == 0 {
+				if fo == nil && r.intn(10) == 0 {
 					c.src = stripIndexes(n.expr)
 				}
 				out, code := evaluate(c.src)
@@ -436,14 +484,23 @@ func runC18(cfg config) {
 				}
 				fname := "nonexistent"
 				var f protoreflect.FieldDescriptor
-				if len(mfields) > 0 && r.intn(10) != 0 {
+				if fo != nil {
+					var only []protoreflect.FieldDescriptor
+					for _, mf := range mfields {
+						if mf.JSONName() == fo.field {
+							only = append(only, mf)
+						}
+					}
+					mfields = only
+				}
+				if len(mfields) > 0 && (fo != nil || r.intn(10) != 0) {
 					f = pick(r, mfields)
 					fname = f.JSONName()
 					if strings.ToLower(fname[:1]) != fname[:1] || strings.ContainsAny(fname, "0123456789") || hasAcronym(fname) {
 						f, fname = nil, "nonexistent" // names the snake-case conversion cannot find
 					}
 				}
-				if r.intn(15) == 0 {
+				if fo == nil && r.intn(15) == 0 {
 					fname, f = "given_name", nil
 					c.camel = false
 				}
@@ -459,7 +516,12 @@ func runC18(cfg config) {
 						c.populated = tgt.msg.Has(f)
 					}
 					d := f.Message()
-					switch r.intn(8) {
+					sel := r.intn(8)
+					if fo != nil {
+						sel, c.value = 100, fo.value
+					}
+					switch sel {
+					case 100:
 					case 0:
 						c.nilValue = true
 					case 1:
@@ -639,6 +701,50 @@ func runC18(cfg config) {
 			kindsHist[c.kind]++
 		}
 	}
+	// ---- scripted histories: long lists deleted from the front and the middle; the same code stored twice, then one
+	// of the two elements changed (the other may not follow) ------------------------------------------------------
+	ext := func(u string) *dtpb.Extension {
+		return &dtpb.Extension{Url: &dtpb.Uri{Value: "http://example.org/" + u}, Value: &dtpb.Extension_ValueX{Choice: &dtpb.Extension_ValueX_StringValue{StringValue: &dtpb.String{Value: u}}}}
+	}
+	longPatient := func() *ppb.Patient {
+		p := &ppb.Patient{Id: &dtpb.Id{Value: "long"}}
+		for i := 0; i < 5; i++ {
+			p.Telecom = append(p.Telecom, &dtpb.ContactPoint{Value: &dtpb.String{Value: fmt.Sprintf("tel-%d", i)}, Rank: &dtpb.PositiveInt{Value: uint32(i + 1)}})
+			p.Identifier = append(p.Identifier, &dtpb.Identifier{Value: &dtpb.String{Value: fmt.Sprintf("id-%d", i)}})
+		}
+		p.Name = []*dtpb.HumanName{{Family: &dtpb.String{Value: "Doe"}}}
+		for i := 0; i < 6; i++ {
+			p.Name[0].Given = append(p.Name[0].Given, &dtpb.String{Value: fmt.Sprintf("given-%d", i)})
+		}
+		return p
+	}
+	for _, first := range []int{0, 1, 2, 3} {
+		prepared = longPatient()
+		forced = []forcedOp{{kind: "delete", expr: fmt.Sprintf("Patient.telecom[%d]", first)}, {kind: "delete", expr: fmt.Sprintf("Patient.name[0].given[%d]", first+1)},
+			{kind: "delete", expr: "Patient.identifier[0]"}, {kind: "delete", expr: fmt.Sprintf("Patient.telecom[%d]", first%2)}, {kind: "delete", expr: "Patient.name[0].given[0]"}}
+		doResource("Patient", 2, 8)
+	}
+	for _, code := range []string{"phone", "email"} {
+		prepared = longPatient()
+		forced = []forcedOp{
+			{kind: "add", expr: "Patient.telecom[0]", field: "system", value: &dtpb.Code{Value: code}},
+			{kind: "add", expr: "Patient.telecom[1]", field: "system", value: &dtpb.Code{Value: code}},
+			{kind: "add", expr: "Patient.telecom[0].system", field: "extension", value: ext("only-on-the-first")},
+			{kind: "add", expr: "Patient.telecom[2]", field: "use", value: &dtpb.Code{Value: "home"}},
+			{kind: "replace", expr: "Patient.telecom[2].use", value: &dtpb.Code{Value: "work"}},
+			{kind: "add", expr: "Patient.telecom[3]", field: "use", value: &dtpb.Code{Value: "work"}},
+			{kind: "add", expr: "Patient.telecom[3].use", field: "extension", value: ext("only-on-the-fourth")},
+			{kind: "add", expr: "Patient", field: "gender", value: &dtpb.Code{Value: "female"}},
+			{kind: "add", expr: "Patient.gender", field: "extension", value: ext("only-here")},
+		}
+		doResource("Patient", 2, 10)
+	}
+	{ // the same code as in the history above, in another resource: nothing of the first may come along
+		prepared = longPatient()
+		forced = []forcedOp{{kind: "add", expr: "Patient.telecom[4]", field: "system", value: &dtpb.Code{Value: "phone"}}, {kind: "add", expr: "Patient", field: "gender", value: &dtpb.Code{Value: "female"}},
+			{kind: "add", expr: "Patient.telecom[1]", field: "use", value: &dtpb.Code{Value: "work"}}}
+		doResource("Patient", 2, 4)
+	}
 	for _, name := range types {
 		doResource(name, 2, 7)
 	}
@@ -745,3 +851,39 @@ func stripIndexes(e string) string {
 }
 
 var _ = anypb.New
+
+// lengthenLists grows some repeated message fields to three to six entries (copies told apart by their element id),
+// so that operations in the middle and at the front of longer lists are exercised.
+func lengthenLists(r *rng, m protoreflect.Message, depth int) {
+	if depth > 2 || m.Descriptor().FullName() == "google.protobuf.Any" {
+		return
+	}
+	fds := m.Descriptor().Fields()
+	for i := 0; i < fds.Len(); i++ {
+		fd := fds.Get(i)
+		if fd.Kind() != protoreflect.MessageKind || fd.IsMap() || !m.Has(fd) {
+			continue
+		}
+		if !fd.IsList() {
+			lengthenLists(r, m.Get(fd).Message(), depth+1)
+			continue
+		}
+		l := m.Mutable(fd).List()
+		if l.Len() > 0 && fd.Message().FullName() != "google.protobuf.Any" && fd.Message().FullName() != "google.fhir.r4.core.ContainedResource" && r.intn(3) == 0 {
+			n0 := l.Len()
+			for k := n0; k < 3+r.intn(4); k++ {
+				c := proto.Clone(l.Get(k % n0).Message().Interface()).ProtoReflect()
+				if idf := c.Descriptor().Fields().ByName("id"); idf != nil && idf.Kind() == protoreflect.MessageKind && !idf.IsList() {
+					idm := c.Mutable(idf).Message()
+					if vf := idm.Descriptor().Fields().ByName("value"); vf != nil && vf.Kind() == protoreflect.StringKind {
+						idm.Set(vf, protoreflect.ValueOfString(fmt.Sprintf("copy-%d", k)))
+					}
+				}
+				l.Append(protoreflect.ValueOfMessage(c))
+			}
+		}
+		for k := 0; k < l.Len() && k < 2; k++ {
+			lengthenLists(r, l.Get(k).Message(), depth+1)
+		}
+	}
+}
